@@ -149,20 +149,24 @@ CGZ = [('g_ta', 0, None), ('g_tb', 1, None), ('g_M', 2, None), ('g_N', 3, None),
 CORE_GEMM_Z = r'void boost::multi::blas::core::gemm<std::complex<double>.*\(char, char, long, long, long, std::complex<double> const\*, .*'
 JRECC = r're:boost::multi::const_subarray<std::complex<double>,2,boost::multi::blas::involuter<conststd::complex<double>\*.*'
 JRECM = r're:boost::multi::subarray<std::complex<double>,2,boost::multi::blas::involuter<std::complex<double>\*.*'
-def jview(v, rows, cols):
+def jview(v, rows, cols, ori='r'):
     return ' && '.join(['%s->base_.it_ != 0 && %s->offset_ == 0 && %s->sub_.offset_ == 0 && %s->sub_.sub_.nelems_ == 1' % (v, v, v, v),
-                        '%s->sub_.stride_ == 1 && %s->stride_ >= MAX1(%s) && %s->stride_ < SMALL' % (v, v, cols, v),
+                        ('%s->sub_.stride_ == 1 && %s->stride_ >= MAX1(%s) && %s->stride_ < SMALL' % (v, v, cols, v)) if ori == 'r' else
+                        ('%s->stride_ == 1 && %s->sub_.stride_ >= MAX1(%s) && %s->sub_.stride_ < SMALL && %s->sub_.stride_ != 1' % (v, v, rows, v, v)),
                         '%s->nelems_ == MUL(%s, %s->stride_) && %s->sub_.nelems_ == MUL(%s, %s->sub_.stride_)' % (v, rows, v, v, cols, v)])
-Check('G_gemm_zj_rrr', ['C13'], 'blasz', fn='w_G_gemm_zj_rrr', params=['alpha', 'a', 'b', 'beta', 'c'],
-      wrapper=('void', 'Z const* alpha, JCA const* a, JCA const* b, Z const* beta, JMA* c', 'multi::blas::gemm(*alpha, *a, *b, *beta, *c);'),
+for zo in ('r', 'c'):
+  ztag = zo*3
+  Check('G_gemm_zj_' + ztag, ['C13'], 'blasz', fn='w_G_gemm_zj_rrr', params=['alpha', 'a', 'b', 'beta', 'c'],
+      wrapper=('void', 'Z const* alpha, JCA const* a, JCA const* b, Z const* beta, JMA* c', 'multi::blas::gemm(*alpha, *a, *b, *beta, *c);') if zo == 'r' else None,
       cxx={'a': JRECC, 'b': JRECC, 'c': JRECM},
       ghosts=[(I64, 'g_m'), (I64, 'g_n'), (I64, 'g_k')],
       stubs=[Stub(CORE_GEMM_Z, record=CGZ, count='g_calls')],
-      requires=['1 < g_m && g_m < SMALL && 1 < g_n && g_n < SMALL && 1 < g_k && g_k < SMALL', jview('a', 'g_m', 'g_k'), jview('b', 'g_k', 'g_n'), jview('c', 'g_m', 'g_n'),
+      requires=['1 < g_m && g_m < SMALL && 1 < g_n && g_n < SMALL && 1 < g_k && g_k < SMALL', jview('a', 'g_m', 'g_k', zo), jview('b', 'g_k', 'g_n', zo), jview('c', 'g_m', 'g_n', zo),
                 'a->base_.it_ != c->base_.it_ && b->base_.it_ != c->base_.it_', 'alpha->f0.f0 == alpha->f0.f0 && alpha->f0.f1 == alpha->f0.f1 && beta->f0.f0 == beta->f0.f0 && beta->f0.f1 == beta->f0.f1   /* no NaN: equality of the passed scalars is meaningful */'],
       lemmas=['LEMMA_MULDIV(g_k, a->sub_.stride_)', 'LEMMA_MULDIV(g_n, b->sub_.stride_)', 'LEMMA_MULDIV(g_n, c->sub_.stride_)', 'LEMMA_MULDIV(g_m, a->stride_)', 'LEMMA_MULDIV(g_k, b->stride_)', 'LEMMA_MULDIV(g_m, c->stride_)', 'LEMMA_MULZERO(g_m, a->stride_)', 'LEMMA_MULZERO(g_k, b->stride_)', 'LEMMA_MULZERO(g_m, c->stride_)',
               'LEMMA_MULREM(g_m, a->stride_)', 'LEMMA_MULREM(g_k, b->stride_)', 'LEMMA_MULREM(g_m, c->stride_)', 'LEMMA_MUL1(g_m)', 'LEMMA_MUL1(g_n)', 'LEMMA_MUL1(g_k)',
-              'LEMMA_MUL0(a->stride_)', 'LEMMA_MUL0(b->stride_)', 'LEMMA_MUL0(c->stride_)'],
+              'LEMMA_MUL0(a->stride_)', 'LEMMA_MUL0(b->stride_)', 'LEMMA_MUL0(c->stride_)', 'LEMMA_MUL0(a->sub_.stride_)', 'LEMMA_MUL0(b->sub_.stride_)', 'LEMMA_MUL0(c->sub_.stride_)',
+              'LEMMA_MULZERO(g_k, a->sub_.stride_)', 'LEMMA_MULZERO(g_n, b->sub_.stride_)', 'LEMMA_MULZERO(g_n, c->sub_.stride_)', 'LEMMA_MULREM(g_k, a->sub_.stride_)', 'LEMMA_MULREM(g_n, b->sub_.stride_)', 'LEMMA_MULREM(g_n, c->sub_.stride_)'],
       ensures=[('exactly one BLAS call', 'EXC != 0 || g_calls == 1'),
                ('the output is the underlying storage of the conjugated view', 'IMPLIES(g_calls == 1, (void*)g_Z == (void*)c->base_.it_)'),
                ('conjugated output: alpha and beta are passed conjugated (conj(C) = alpha conj(A) conj(B) + beta conj(C)  iff  C = conj(alpha) A B + conj(beta) C)',
